@@ -179,7 +179,7 @@ def main():
         jobs.append((f"m{a.seed}-{k:04d}", rel, src, desc, line))
     print(f"# {len(allsites)} sites in {len(FILES)} files; sampled {len(jobs)}", flush=True)
     chunks = [(w, jobs[w::a.workers], a.checks_jobs) for w in range(a.workers)]
-    os.makedirs(os.path.dirname(a.out), exist_ok=True)
+    os.makedirs(os.path.dirname(os.path.abspath(a.out)), exist_ok=True)
     with multiprocessing.Pool(a.workers) as pool:
         res = [r for part in pool.map(worker, chunks) for r in part]
     with open(a.out, "w") as f:
